@@ -56,6 +56,11 @@ type SCEVAddRec struct {
 	Start SCEV
 	Step  SCEV
 	Loop  *Loop
+
+	// VarType is the type of the variable the recurrence stands for (nil when unknown). The value
+	// is start + k*step modulo the width of that type, so a uint8 counter and an int counter with
+	// the same start and step are different recurrences and must not print the same.
+	VarType types.Type
 }
 
 func (s *SCEVAddRec) EvaluateAt(k *big.Int, cache map[SCEV]*big.Int) *big.Int {
@@ -83,10 +88,18 @@ func (s *SCEVAddRec) IsLoopInvariant(loop *Loop) bool {
 	return s.Start.IsLoopInvariant(loop) && s.Step.IsLoopInvariant(loop)
 }
 func (s *SCEVAddRec) String() string {
-	return fmt.Sprintf("{%s, +, %s}%s", s.Start.String(), s.Step.String(), s.loopSuffix())
+	return fmt.Sprintf("{%s, +, %s}%s%s", s.Start.String(), s.Step.String(), s.loopSuffix(), s.typeSuffix())
 }
 func (s *SCEVAddRec) StringWithRenamer(r Renamer) string {
-	return fmt.Sprintf("{%s, +, %s}%s", s.Start.StringWithRenamer(r), s.Step.StringWithRenamer(r), s.loopSuffix())
+	return fmt.Sprintf("{%s, +, %s}%s%s", s.Start.StringWithRenamer(r), s.Step.StringWithRenamer(r), s.loopSuffix(), s.typeSuffix())
+}
+
+// typeSuffix names the type the recurrence wraps around in (see VarType).
+func (s *SCEVAddRec) typeSuffix() string {
+	if s.VarType == nil {
+		return ""
+	}
+	return ":" + types.TypeString(s.VarType, func(p *types.Package) string { return p.Path() })
 }
 
 // loopSuffix names the loop whose iterations the recurrence counts (see Loop.Label).
@@ -749,7 +762,7 @@ func computeSCEVBody(v ssa.Value, loop *Loop, depth int) SCEV {
 	if phi, ok := v.(*ssa.Phi); ok {
 		if phi.Block() == loop.Header {
 			if iv, exists := loop.Inductions[phi]; exists {
-				return &SCEVAddRec{Start: iv.Start, Step: iv.Step, Loop: loop}
+				return &SCEVAddRec{Start: iv.Start, Step: iv.Step, Loop: loop, VarType: phi.Type()}
 			}
 		}
 		return &SCEVUnknown{Value: v, IsInvariant: false}
